@@ -87,6 +87,12 @@ CHECKS['C20'] = dict(
          'Obligations: returns a value of the documented type or raises the parameter error (no other exception), clean(v) twice equal, clean(clean(v)) unchanged, raw argument and program unaltered; violations replayed with concrete values.',
     note='Trusted: z3 (strings, regex membership); S-float/int and S-os stubs (listed in evidence); numeric value of int(text) is an uninterpreted function of the text.',
     ref='DESIGN.md §3 C20')
+CHECKS['C12'] = dict(
+    technique='solver-enumerated single-fault matrix (z3 integer choices for fault kind, parameter, injected value kind, file position) over every built-in command, executed on the real loader/validator with an execute() recorder; verdict compared with a reference well-formedness predicate computed from the live declarations',
+    text='Bounded model checking of acceptance: for every command of the CSV library set and every single fault (unknown command, duplicate result, each required parameter missing, undeclared parameter, each parameter x 13 injected value kinds, references to missing / wrong-kind / wrong-fuzziness results) at the first or last file position of a 7-command host model, '
+         'the real Program either reaches its first execute() (accepted) or raises the documented error class with an empty execution recorder and no output file (rejected before any side effect); accepted iff the reference predicate says well-formed.',
+    note='Trusted: z3 (fault enumeration), reference predicate (DESIGN.md Appendix D); values inside a kind come from small representative sets (value-level cleaning is C20).',
+    ref='DESIGN.md §3 C12')
 NOT_YET = {}
 ALL = ['C%02d' % i for i in range(1, 21)]
 
